@@ -93,7 +93,7 @@ func c04Build(ctx context.Context, c c04Case, rng *rand.Rand) c04Out {
 	}
 	parts := func() []*fun.Iterator[int] {
 		var its []*fun.Iterator[int]
-		if c.N == 0 && c.W%2 == 0 {
+		if c.N == 0 && c.W%2 == 0 && !c.Endless {
 			return nil // nothing to merge / chain at all: still a finite input
 		}
 		k := 1 + c.W%4
@@ -108,7 +108,7 @@ func c04Build(ctx context.Context, c c04Case, rng *rand.Rand) c04Out {
 	}
 	slices := func() [][]int {
 		var out [][]int
-		if c.N == 0 && c.W%2 == 0 {
+		if c.N == 0 && c.W%2 == 0 && !c.Endless {
 			return nil
 		}
 		for s := 0; s < 3; s++ {
